@@ -38,6 +38,21 @@ CLAIMED["C04"] = (
     "A",
 )
 
+CLAIMED["C01"] = (
+    "property-based testing of edit histories with a differential oracle (incremental update vs fresh analysis of the same text, compared after every step on text, tokens, tree with attached diagnostics, symbol table, errors()); two generators: text-level histories over valid/damaged/soup/Unicode documents and validity-preserving model mutations delivered as minimal text differences; failures are triaged against a pinned copy of the repaired baseline",
+    "Exploration: 40k (700k) histories / 120k (2M) update steps per run. The oracle is a different code path of the same build (no old nodes, no token change). A divergence is a violation unless the pinned copy of the repaired baseline (/verif/pinned) fails on exactly the same (fresh previous state, change batch) input, which identifies the recorded finding C01-tail; the validity-preserving stratum is clean on the baseline and reports its suppressed count separately.",
+    "Trusted: AnalyzedSource::new as reference; derived PartialEq on the public AST/token/table types; the pinned copy only ever explains failures that the unchanged tree shows on the identical input.",
+    "DESIGN.md sections 5.3 and 6 C01",
+    "A",
+)
+CLAIMED["C05"] = (
+    "property-based testing + exhaustive enumeration of all single-token damages of sampled programs; metamorphic oracle: the undamaged declarations' sub-trees, symbol-table entries and navigation answers before vs after the damage, syntax diagnostics confined to the damaged declaration's extent",
+    "Exploration: 60k (1M) sampled (program, token, operator, replacement) cases plus all token x {delete, insert-before, replace} x 40-lexeme damages of 6 (150) seed-derived programs.",
+    "Trusted: the program generator; the extent computation of the damaged declaration; comments in front of the damaged token may attach to the following declaration (documented normalisation).",
+    "DESIGN.md section 6 C05",
+    "A",
+)
+
 NOT_YET = "check not built yet (implementation in progress, see DESIGN.md section 8 build order)"
 NOT_APPLICABLE = {}
 
